@@ -18,6 +18,8 @@ pub enum A {
     Stop,
     CtxStop,
     Drop,
+    /// a call whose caller gives up after the first poll (the call future is dropped)
+    CallGiveUp,
 }
 
 pub struct X {
@@ -171,6 +173,7 @@ fn make_case_t(via: StreamVia, prefill: &[u32], prefill_close: bool, feeder: &[O
                 A::Stop => Op::Stop(H::Addr(0)),
                 A::CtxStop => Op::Cmd(H::Addr(0), msg_id(c, i), Action::Stop),
                 A::Drop => Op::Drop(H::Addr(0)),
+                A::CallGiveUp => Op::CallAbandon(H::Addr(0), msg_id(c, i)),
             })
             .collect();
         clients.push(ClientSpec { init: vec![HInit::Addr], ops });
@@ -325,7 +328,7 @@ pub fn fair_cases(pid: &'static str) -> Vec<Case> {
 fn cases(tier: Tier) -> Vec<Case> {
     let mut v = fair_cases("C13");
     let vias = [StreamVia::SpawnOnStream, StreamVia::BuildOnStream, StreamVia::BoundedOnStream(1)];
-    let alpha = [A::Send, A::Call, A::Stop, A::CtxStop, A::Drop];
+    let alpha = [A::Send, A::Call, A::Stop, A::CtxStop, A::Drop, A::CallGiveUp];
     let f = |ids: &[u32], close: bool| -> Vec<Op> {
         let mut o: Vec<Op> = ids.iter().map(|i| Op::Feed(*i)).collect();
         if close {
